@@ -25,11 +25,11 @@ FILEMAP = [
     ("src/Interpolation/", ["C08"]),
     ("src/GMGPolar/MultigridMethods/", ["C10"]),
     ("src/GMGPolar/solver.cpp", ["C01", "C09", "C13", "C20"]),
-    ("src/GMGPolar/setup.cpp", ["C09", "C18", "C20", "C10"]),
+    ("src/GMGPolar/setup.cpp", ["C09", "C18", "C20", "C10", "C13"]),
     ("src/GMGPolar/level_interpolation.cpp", ["C10"]),
     ("src/GMGPolar/build_rhs_f.cpp", ["C03"]),
     ("src/Level/levelCache.cpp", ["C03"]),
-    ("src/Level/level.cpp", ["C10", "C09"]),
+    ("src/Level/level.cpp", ["C10", "C09", "C20"]),
     ("include/Level/level.h", ["C03"]),
     ("src/PolarGrid/polargrid.cpp", ["C17", "C18"]),
     ("src/PolarGrid/multiindex.cpp", ["C17"]),
